@@ -891,6 +891,7 @@ def piStep (d : PiDrv) (line : String) : PiDrv × String :=
     match d.method with
     | some _ => ({ d with fd := Pipe.close d.fd, method := none, closed := true }, "unregistered=true fd=closed\n  sys close W = 0")
     | none => (d, s!"unregistered=false fd={if d.closed then "closed" else "open"}")
+  | ["fd0"] => (d, "ok")           -- the descriptor's number is no part of the contract: 0 is as good as any
   | ["eintr-close"] => (d, "ok")   -- an interrupted close has released the descriptor: nothing else to model
   | ["final"] => (d, s!"fd={if d.closed then "closed" else "open"}")
   | _ => (d, "bad-op")
